@@ -67,6 +67,7 @@ type Backend struct {
 	Trace   *strings.Builder
 	openQ   map[int]*openQuery
 	useTwin bool
+	saved   *backendDump
 }
 
 type openQuery struct {
